@@ -65,7 +65,7 @@ Fixpoint quote_go (fuel : nat) (s : bstr) : bstr :=
       end
   end.
 Definition quote_body (s : bstr) : bstr := quote_go (length s) s.
-Definition go_quote (s : bstr) : bstr := 34 :: quote_body s ++ [34].
+Definition po_go_quote (s : bstr) : bstr := 34 :: quote_body s ++ [34].
 
 (* ------------------------------------------------------------------ *)
 (* strconv.UnquoteChar(s, double quote) and Unquote                             *)
@@ -190,8 +190,8 @@ Fixpoint split_nl (cur s : bstr) : list bstr :=
 
 (* writer.quo(prefix, val) *)
 Definition po_quo (prefix val : bstr) : list bstr :=
-  if negb (contains val 10) then [prefix ++ go_quote val]
-  else (prefix ++ [34; 34]) :: map go_quote (split_nl [] val).
+  if negb (contains val 10) then [prefix ++ po_go_quote val]
+  else (prefix ++ [34; 34]) :: map po_go_quote (split_nl [] val).
 
 (* writer.opt *)
 Definition po_opt (prefix val : bstr) : list bstr := match val with [] => [] | _ => po_quo prefix val end.
